@@ -186,6 +186,18 @@ CHECKS = {
              "line), D19 (application arguments with backslash/quote/$ mangled), D20 (bind=none oversubscription silently clamped) and D21 "
              "(invalid small stack size hangs under shared-priority) are listed known findings keyed by input class.",
         ref="DESIGN.md section 2, C16"),
+    "C20": dict(
+        technique="runtime monitoring: per-operation signal counters on value and error channel, full payload comparison at continuation "
+                  "entry, ledger after pika::wait()/pika::stop(), hook-side shadow of requests handed to the poller vs callbacks finished; "
+                  "seeded delays at the MPI polling hook points",
+        text="Exploration: MPI-enabled build of the real library, single rank: all 32 completion modes x {default-pool polling, forced "
+             "dedicated pool} x worker counts, rounds of self-addressed Isend/Irecv pairs (0 B-1 MiB) started from different tasks, slow "
+             "continuations, error operations, balanced stop/start_polling cycles, shutdown with requests in flight, MPI_ERRORS_RETURN "
+             "variant. Coverage counters show how many requests went through the poller and how many callbacks were run by a worker "
+             "other than the one that tested the request.",
+        note="Self-addressed transfers only (one rank); Open MPI is uninstrumented, so no sanitizer leg; mpix continuation modes are not "
+             "available. D22 (second completion after an MPI call returned an error code) was found here and fixed.",
+        ref="DESIGN.md section 2, C20"),
 }
 
 NOT_YET = "not claimed yet: harness under construction in this session (see DESIGN.md section 2)"
